@@ -84,6 +84,7 @@ class Front:
         self.mem = {}
         self.inc = include_flags(self.repo)
         self.runs = 0
+        self.asked = set()      # every (translation unit, filter) requested so far
 
     def _raw(self, tu, flt):
         key = hashlib.sha1(f"{VERSION}|{self.th}|{tu}|{flt}".encode()).hexdigest()
@@ -110,6 +111,7 @@ class Front:
                 self.mem[(tu, flt)] = self._parse(raw)
 
     def decls(self, tu, flt):
+        self.asked.add((tu, flt))
         if (tu, flt) not in self.mem:
             self.mem[(tu, flt)] = self._parse(self._raw(tu, flt))
         return self.mem[(tu, flt)]
@@ -323,9 +325,13 @@ class Module:
                     res.append(x)
         return res
 
-    def find_qualified(self, tu, qualified, signature=None, want_body=True):
+    def find_qualified(self, tu, qualified, signature=None, want_body=True, targs=None):
         simple = qualified.split("::")[-1]
-        cands = [o for o in self.candidates(tu, simple) if qual_of(o) == qualified]
+        if targs:
+            # an instantiation of a member function template: clang demangles it as `<ret> Class::name<args>(params)`
+            cands = [o for o in self.candidates(tu, simple) if (qual_of(o) or "").split(" ")[-1] == qualified + targs and has_body(o)]
+        else:
+            cands = [o for o in self.candidates(tu, simple) if qual_of(o) == qualified]
         if signature:
             cands = [o for o in cands if o.get("type", {}).get("qualType") == signature]
         groups = {}
@@ -455,6 +461,8 @@ class Module:
 
     def need_function(self, tu, decl, want_name=None, slice_=None, opts=None):
         key = decl["mangledName"] + ("#" + want_name if slice_ else "")
+        if slice_ and not want_name:
+            raise Fail("a slice / site entry needs a lean_name")
         if key in self.defs:
             return self.defs[key]
         if key in self.in_progress:
@@ -472,13 +480,56 @@ class Module:
         return d
 
     def run(self):
-        self.front.prefetch([(e["file"], e["function"].split("::")[-1]) for e in self.entries])
+        # the dumps this module needed last time (helpers, constants, classes of locals) are fetched in parallel up front;
+        # the list is only a hint: anything missing from it is fetched on demand, anything superfluous is ignored
+        hint_p = os.path.join(self.front.cachedir, f"prefetch-{self.name}.json") if self.front.cachedir else None
+        hints = []
+        if hint_p and os.path.exists(hint_p):
+            try:
+                hints = [tuple(x) for x in json.load(open(hint_p)) if os.path.exists(os.path.join(self.front.repo, x[0]))]
+            except (ValueError, TypeError, IndexError):
+                hints = []
+        asked0 = set(self.front.asked)
+        try:
+            self.front.prefetch([(e["file"], e["function"].split("::")[-1]) for e in self.entries] + hints)
+        except Fail:
+            if not hints:
+                raise
+            self.front.prefetch([(e["file"], e["function"].split("::")[-1]) for e in self.entries])
+        done = False
+        try:
+            r = self.run_entries()
+            done = True
+            return r
+        finally:
+            if hint_p:
+                new = (self.front.asked - asked0) | (set() if done else set(hints))
+                os.makedirs(os.path.dirname(hint_p), exist_ok=True)
+                with open(hint_p + ".tmp", "w") as f:
+                    json.dump(sorted(new), f)
+                os.replace(hint_p + ".tmp", hint_p)
+
+    def run_entries(self):
         for e in self.entries:
             try:
-                decl = self.find_qualified(e["file"], e["function"], e.get("signature"))
-                self.need_function(e["file"], decl, e.get("lean_name"), e.get("slice"), e)
+                sl = e.get("slice") or ({"site": e["site"]} if "site" in e else None)
+                insts = e.get("instantiations") or [e.get("template_args")]
+                texts = []
+                for ta in insts:
+                    decl = self.find_qualified(e["file"], e["function"], e.get("signature"), targs=ta)
+                    if ta is insts[0]:
+                        d = self.need_function(e["file"], decl, e.get("lean_name"), sl, e)
+                        texts.append(d.core)
+                    else:
+                        # every listed instantiation must give the same definition (the kernel does not depend on the
+                        # template arguments); translated in a scratch module so that nothing is emitted twice
+                        scratch = Module(self.name, self.front, [])
+                        scratch.extra_tus = self.extra_tus
+                        d2 = scratch.need_function(e["file"], decl, e.get("lean_name"), sl, e)
+                        if d2.core != texts[0]:
+                            raise Fail(f"instantiations {insts[0]} and {ta} translate to different definitions")
             except Fail as x:
-                raise Fail(f"[{self.name}] {e['function']}: {x}") from None
+                raise Fail(f"[{self.name}] {e['function']}" + (f" ({e['lean_name']})" if e.get("slice") or e.get("site") else "") + f": {x}") from None
         return self
 
     def emit(self, repo):
@@ -491,6 +542,8 @@ class Module:
             out.append(f"     {os.path.relpath(p, repo)}  {hs[p]}")
         out.append("   kernels : " + ", ".join(e["function"] for e in self.entries))
         out.append("-/")
+        if any("site" in e for e in self.entries):
+            out.append("set_option linter.unusedVariables false   -- a site's parameters are the variables its text mentions")
         out.append(f"namespace Gen.{self.name}\n")
         for cls in sorted(self.classes):
             out.append(f"/-- receiver fields of `{cls}` touched by the kernels of this module -/")
@@ -523,7 +576,7 @@ CASTS = ("ImplicitCastExpr", "CStyleCastExpr", "CXXStaticCastExpr", "CXXFunction
 
 def unwrap(n):
     while n["kind"] in WRAPPERS or (n["kind"] == "ImplicitCastExpr" and n.get("castKind") in ("NoOp", "LValueToRValue", "FunctionToPointerDecay")):
-        n = n["inner"][0]
+        n = n["inner"][-1] if n["kind"] == "SubstNonTypeTemplateParmExpr" else n["inner"][0]     # (parameter declaration, replacement)
     return n
 
 
@@ -549,6 +602,7 @@ class FnTr:
         self.mod, self.tu, self.decl, self.lname, self.cls, self.slice, self.opts = mod, tu, decl, lname, cls, slice_, opts
         self.vars = {}        # clang id -> (lean name, ctype)
         self.var_off = {}     # clang id -> source offset of the declaration (None for parameters)
+        self.cname = {}       # clang id -> C++ name
         self.used_names = set()
         self.abstract = {}    # lean name -> lean type  (opaque observers, vectors) in first-use order
         self.oblig = []
@@ -560,6 +614,10 @@ class FnTr:
         self.qualtype = decl["type"]["qualType"]
         self.is_static = decl.get("storageClass") == "static" or decl["kind"] == "FunctionDecl"
         self.is_const = bool(re.search(r"\)\s*const\b", self.qualtype))
+        self.site = (slice_ or {}).get("site")     # a located `if` / assignment of a big function (see take_site)
+        self.site_ret_t = None
+        self.opaque = {}                            # source offset of an untranslatable call -> abstract parameter
+        self.touched = set()                        # local objects possibly modified by statements a site skips
 
     def ct(self, t):
         """C type of a clang `type` object; enumeration types are their underlying integer type."""
@@ -571,17 +629,38 @@ class FnTr:
         return r
 
     # ---- variables ----------------------------------------------------------------------------
-    def declare(self, v):
+    def resolve_types(self, nodes):
+        """Slices / sites of big functions: only the variables mentioned in the selected statements get a type (the
+        others are never used; resolving e.g. `Move` or `UndoInfo` would cost one clang run each)."""
+        used = {x["referencedDecl"]["id"] for st in nodes for x in walk(st) if x.get("kind") == "DeclRefExpr" and "referencedDecl" in x}
+        used |= {x["id"] for st in nodes for x in walk(st) if x.get("kind") == "VarDecl"}
+        for vid, (name, t) in list(self.vars.items()):
+            if t[0] != "unresolved":
+                continue
+            if vid in used:
+                try:
+                    t2 = self.ct(t[1])
+                except Fail:
+                    t2 = ("unsupported", t[1]["qualType"])
+            else:
+                t2 = ("unsupported", t[1]["qualType"])
+            self.vars[vid] = (name, t2)
+
+    def declare(self, v, lazy=False):
         name = lean_ident(v["name"]) if v.get("name") else "_anon"
         base, i = name, 2
         while name in self.used_names:
             name = f"{base}_{i}"; i += 1
         self.used_names.add(name)
-        try:
-            t = self.ct(v["type"])
-        except Fail:
-            t = ("unsupported", v["type"]["qualType"])      # fails loudly where (if) the variable is used
+        if lazy:
+            t = ("unresolved", v["type"])                   # resolved by resolve_types() for the variables a slice mentions
+        else:
+            try:
+                t = self.ct(v["type"])
+            except Fail:
+                t = ("unsupported", v["type"]["qualType"])      # fails loudly where (if) the variable is used
         self.vars[v["id"]] = (name, t)
+        self.cname[v["id"]] = v.get("name")
         self.var_off[v["id"]] = None if v.get("kind") == "ParmVarDecl" else offset_of(v)
         return name, t
 
@@ -611,12 +690,19 @@ class FnTr:
             plist.append((n, t, p))
         for v in walk(body):
             if v.get("kind") == "VarDecl":
-                self.declare(v)
+                self.declare(v, lazy=bool(self.slice))
         stmts = body.get("inner", [])
         self.has_loop = any(x.get("kind") in ("WhileStmt", "ForStmt", "DoStmt") for x in walk(body))
         outputs = None
-        if self.slice:
+        site_expr = None
+        if self.site:
+            stmts, outputs, site_expr = self.take_site(stmts)
+            self.resolve_types(stmts if site_expr is None else [site_expr])
+            outputs = self.output_ids(outputs, stmts) if outputs is not None else None
+            self.has_loop = any(x.get("kind") in ("WhileStmt", "ForStmt", "DoStmt") for s in stmts for x in walk(s))
+        elif self.slice:
             stmts, outputs = self.take_slice(stmts)
+            self.resolve_types(stmts)
             self.has_loop = any(x.get("kind") in ("WhileStmt", "ForStmt", "DoStmt") for s in stmts for x in walk(s))
         # final continuation
         if outputs is not None:
@@ -626,17 +712,33 @@ class FnTr:
                 self.uses_self = True
             self.ret_t = ("tuple", otypes) if len(outputs) > 1 else otypes[0]
             self.fall = "(" + ", ".join(onames) + ")" if len(outputs) > 1 else onames[0]
+        elif self.site:
+            self.fall = None                      # `cond` / `then_return`: no fall-through value
+            self.ret_t = ("bool",)
         elif self.ret_t[0] == "void":
             self.fall = "self"
         else:
             self.fall = None
         self.void = self.ret_t[0] == "void"
         ktext = self.ret(self.fall) if self.fall is not None else "MISSING_RETURN"
-        text = self.seq(stmts, ktext, {}).replace(FUELMARK, "fuel")
+        if site_expr is not None:
+            self.ret_t = ("bool",)
+            self.void = False
+            text = self.cond(site_expr)
+        else:
+            text = self.seq(stmts, ktext, {}).replace(FUELMARK, "fuel")
+            if self.site and self.site.get("part") == "then_return":
+                if self.site_ret_t is None:
+                    raise Fail("site part `then_return`: the branch contains no return statement")
+                self.ret_t = self.site_ret_t
         self.helpers = [h.replace(FUELMARK, "fuel0") for h in self.helpers]
+        for obj in sorted(self.touched):
+            bad = [a for a in self.abstract if a.startswith(obj + "_")]
+            if bad:
+                raise Fail(f"the site reads `{bad[0]}` but also contains a statement that may modify the object `{obj}`")
         if "MISSING_RETURN" in text or any("MISSING_RETURN" in h for h in self.helpers):
             raise Fail("control can reach the end of a non-void function")
-        if self.mut_self and not self.void and not (self.slice and "self" in self.slice["outputs"]):
+        if self.mut_self and not self.void and not (self.slice and "self" in (self.site or self.slice).get("outputs", [])):
             raise Fail("the receiver is modified but not returned (non-void mutating member function, or a slice without `self` among its outputs)")
         if self.mut_self and any(self.param_is_struct(t) for n, t, p in plist):
             raise Fail("the receiver is modified and another object of a translated class is passed by reference (possible aliasing)")
@@ -654,7 +756,12 @@ class FnTr:
         if self.slice:
             free = self.free_vars(text)
             before = {n for vid, (n, t) in self.vars.items() if self.var_off.get(vid) is None or self.var_off[vid] < self.slice_off}
-            ps += [f"({n} : {lt})" for n, lt in self.canon_params() if n in free and (n in before or n in self.abstract)]
+            pl = [(n, lt) for n, lt in self.canon_params() if n in free and (n in before or n in self.abstract)]
+            if self.site:
+                # `score_4` (fourth local called `score` of the big function) -> `score` when that is unambiguous in this
+                # definition: the parameter names must not depend on unrelated declarations elsewhere in the function
+                pl, text = self.clean_names(pl, text)
+            ps += [f"({n} : {lt})" for n, lt in pl]
         else:
             pnames = {n for n, t, p in plist}
             ps += [f"({n} : {lt})" for n, lt in self.canon_params() if n in pnames or n in self.abstract]
@@ -667,7 +774,9 @@ class FnTr:
         self.params_text = " ".join(ps)
         self.rt_text = rt
         hdr = [f"/-- `{qual_of(decl) or decl['name']}` : `{self.qualtype}`  ({os.path.basename(decl.get('_file') or '?')}:{decl.get('_line')})"]
-        if self.slice:
+        if self.site:
+            hdr.append(f"    SITE {json.dumps(self.site)}  (found at {self.site_pos})")
+        elif self.slice:
             hdr.append(f"    SLICE {json.dumps(self.slice)}")
         if self.oblig:
             self.oblig.sort(key=lambda o: [int(x) if x.isdigit() else x for x in re.split(r"[: ]", o)[:3]])
@@ -677,7 +786,7 @@ class FnTr:
         hdr[-1] += " -/"
         out = "\n".join(self.helpers)
         out += "\n".join(hdr) + f"\ndef {self.lname} {self.params_text} : {rt} :=\n{ind(text)}\n"
-        return Def(text=out, lname=self.lname, cls=self.cls, void=self.void, has_loop=self.has_loop,
+        return Def(text=out, core="\n".join(self.helpers) + f"def {self.lname} {self.params_text} : {rt} :=\n{ind(text)}\n", lname=self.lname, cls=self.cls, void=self.void, has_loop=self.has_loop,
                    uses_self=self.uses_self, abstract=dict(self.abstract), is_const=self.is_const, nparams=len(plist),
                    ret_t=self.ret_t, plist=[(n, t) for n, t, _ in plist])
 
@@ -797,6 +906,187 @@ class FnTr:
                 raise Fail("slice contains a return statement")
         return sel, outs
 
+
+    # ---- sites: a located `if` statement (or assignment) of a big function ----------------------------------------
+    @staticmethod
+    def idents(node):
+        """Names mentioned in a subtree: referenced variables / functions / enumerators, member names, callees."""
+        out = set()
+        for x in walk(node):
+            k = x.get("kind")
+            if k == "DeclRefExpr" and "referencedDecl" in x:
+                out.add(x["referencedDecl"].get("name"))
+            elif k == "MemberExpr":
+                out.add(x.get("name"))
+        return out
+
+    def take_site(self, stmts):
+        """{"site": {...}} — translate one guarded site of a big function as a Lean definition over its free variables.
+        locator (exactly one statement of the function body, at any depth, must match; 0 or >1 -> Fail):
+          if_mentions / if_not_mentions     names that must (not) occur in the condition of the `if`
+          then_mentions / then_not_mentions names that must (not) occur in its then-branch
+          or  assigns: v, mentions / not_mentions   the assignment statement `v = e` / `v op= e` whose text mentions ...
+        part:
+          "cond"          the condition, as Bool                                        (default)
+          "conjunct"      the unique top-level `&&`-conjunct of the condition mentioning `conjunct_mentions`
+          "then" | "else" | "whole"   that branch / the whole `if` as a function to the variables listed in `outputs`
+          "then_return"   the then-branch as a function to the value it returns; with `return_call: f` every return must
+                          be `return f(a, b, ..)` (a local lambda that post-processes the result) and the value is the
+                          tuple of its arguments
+        Returns (statements, output names | None, condition node | None)."""
+        st = self.site
+        known = {"if_mentions", "if_not_mentions", "then_mentions", "then_not_mentions", "assigns", "mentions", "not_mentions",
+                 "part", "conjunct_mentions", "outputs", "return_call"}
+        if set(st) - known:
+            raise Fail(f"site: unknown keys {sorted(set(st) - known)}")
+        body = {"kind": "CompoundStmt", "inner": stmts}
+        found, seen = [], set()
+        if "assigns" in st:
+            for x in walk(body):
+                if x.get("kind") != "CompoundStmt":
+                    continue
+                for c in x.get("inner", []):
+                    e = unwrap(c) if c.get("kind") in WRAPPERS else c
+                    if not (e.get("kind") == "CompoundAssignOperator" or (e.get("kind") == "BinaryOperator" and e.get("opcode") == "=")):
+                        continue
+                    l = unwrap(e["inner"][0])
+                    if l.get("kind") != "DeclRefExpr" or l["referencedDecl"].get("name") != st["assigns"]:
+                        continue
+                    ids = self.idents(e)
+                    if set(st.get("mentions", [])) <= ids and not (set(st.get("not_mentions", [])) & ids) and offset_of(c) not in seen:
+                        seen.add(offset_of(c))
+                        found.append(c)
+            what = {k: st[k] for k in ("assigns", "mentions", "not_mentions") if k in st}
+        else:
+            if not st.get("if_mentions"):
+                raise Fail("site: `if_mentions` (or `assigns`) is required")
+            for x in walk(body):
+                if x.get("kind") != "IfStmt" or x.get("hasInit") or x.get("hasVar"):
+                    continue
+                ci = self.idents(x["inner"][0])
+                ti = self.idents(x["inner"][1])
+                if set(st["if_mentions"]) <= ci and not (set(st.get("if_not_mentions", [])) & ci) and \
+                        set(st.get("then_mentions", [])) <= ti and not (set(st.get("then_not_mentions", [])) & ti) and offset_of(x) not in seen:
+                    seen.add(offset_of(x))      # (a lambda body is printed twice by clang)
+                    found.append(x)
+            what = {k: st[k] for k in ("if_mentions", "if_not_mentions", "then_mentions", "then_not_mentions") if k in st}
+        if len(found) != 1:
+            raise Fail(f"site locator {json.dumps(what)} matches {len(found)} statements (need exactly 1)" +
+                       ("".join(f"; {pos_of(f)}" for f in found[:4])))
+        node = found[0]
+        self.slice_off = offset_of(node)
+        self.site_pos = pos_of(node)
+        if self.slice_off is None:
+            raise Fail("site starts inside a macro expansion")
+        if "assigns" in st:
+            return [node], [st["assigns"]], None
+        part = st.get("part", "cond")
+        if part == "cond":
+            return [], None, node["inner"][0]
+        if part == "conjunct":
+            want = set(st.get("conjunct_mentions", []))
+            if not want:
+                raise Fail("site part `conjunct` needs `conjunct_mentions`")
+            cj = []
+
+            def flat(n):
+                u = n
+                while u["kind"] in WRAPPERS:
+                    u = u["inner"][0]
+                if u["kind"] == "BinaryOperator" and u.get("opcode") == "&&":
+                    flat(u["inner"][0]); flat(u["inner"][1])
+                else:
+                    cj.append(n)
+            flat(node["inner"][0])
+            sel = [c for c in cj if want <= self.idents(c)]
+            if len(sel) != 1:
+                raise Fail(f"site: {len(sel)} of the {len(cj)} conjuncts of the condition at {pos_of(node)} mention {sorted(want)} (need exactly 1)")
+            return [], None, sel[0]
+        if part in ("then", "else", "whole"):
+            if not st.get("outputs"):
+                raise Fail(f"site part `{part}` needs `outputs`")
+            if part == "whole":
+                sel = [node]
+            else:
+                if part == "else" and len(node["inner"]) < 3:
+                    raise Fail(f"site: the `if` at {pos_of(node)} has no else-branch")
+                sel = self.block(node["inner"][1 if part == "then" else 2])
+            if any(x.get("kind") == "ReturnStmt" for s_ in sel for x in walk(s_)):
+                raise Fail(f"site part `{part}` contains a return statement (use `then_return`)")
+            return sel, list(st["outputs"]), None
+        if part == "then_return":
+            return self.block(node["inner"][1]), None, None
+        raise Fail(f"site: unknown part `{part}`")
+
+    def output_ids(self, names, region):
+        """Variables of the region named (in C++) as listed; several locals of a big function may share a name, the one
+        meant is the one the region mentions."""
+        used = {x["referencedDecl"]["id"] for s_ in region for x in walk(s_) if x.get("kind") == "DeclRefExpr" and "referencedDecl" in x}
+        used |= {x["id"] for s_ in region for x in walk(s_) if x.get("kind") == "VarDecl"}
+        outs = []
+        for name in names:
+            if name == "self":
+                outs.append("self")
+                continue
+            ids = [vid for vid in self.vars if self.cname.get(vid) == name and vid in used]
+            if len(ids) != 1:
+                raise Fail(f"site output `{name}`: {len(ids)} variables of that name are mentioned in the selected statements")
+            outs.append(ids[0])
+        return outs
+
+    def clean_names(self, pl, text):
+        taken = {n for n, _ in pl} | set(re.findall(r"[A-Za-z_][A-Za-z_0-9']*", text))
+        ren = {}
+        for vid, (n, t) in self.vars.items():
+            base = lean_ident(self.cname.get(vid) or "")
+            if not base or n == base or not re.fullmatch(re.escape(base) + r"_\d+", n):
+                continue
+            if n in taken and base not in taken and base not in ren.values():
+                ren[n] = base
+            for a in self.abstract:          # observers of the object: `sti_2_allowNullMove` -> `sti_allowNullMove`
+                new = base + a[len(n):]
+                if a.startswith(n + "_") and a in taken and new not in taken and new not in ren.values():
+                    ren[a] = new
+        if not ren:
+            return pl, text
+        pat = re.compile(r"(?<![A-Za-z_0-9'.])(" + "|".join(re.escape(k) for k in sorted(ren, key=len, reverse=True)) + r")(?![A-Za-z_0-9'])")
+        text = pat.sub(lambda m: ren[m.group(1)], text)
+        return [(ren.get(n, n), lt) for n, lt in pl], text
+
+    def site_return(self, s):
+        """`return f(a, b)` through the local lambda named by `return_call` -> the tuple (a, b); else the returned value."""
+        inner = s.get("inner", [])
+        if not inner:
+            raise Fail(f"{pos_of(s)}: `return;` inside a site")
+        rc = self.site.get("return_call")
+        e = unwrap(inner[0])
+        while e["kind"] in CASTS and e.get("castKind") in ("NoOp", "LValueToRValue"):
+            e = unwrap(e["inner"][0])
+        if rc:
+            ok = e["kind"] == "CXXOperatorCallExpr" and len(e["inner"]) >= 2
+            if ok:
+                obj = unwrap(e["inner"][1])
+                while obj["kind"] in CASTS and obj.get("castKind") == "NoOp":
+                    obj = unwrap(obj["inner"][0])
+                ok = obj["kind"] == "DeclRefExpr" and obj["referencedDecl"].get("name") == rc and obj["referencedDecl"]["id"] in self.vars
+            if not ok:
+                raise Fail(f"{pos_of(s)}: return inside the site is not of the form `return {rc}(..)`")
+            args = e["inner"][2:]
+            ts = [self.ct(a["type"]) for a in args]
+            if not all(is_int(t) for t in ts):
+                raise Fail(f"{pos_of(s)}: non-integral argument of `{rc}`")
+            rt = ("tuple", ts) if len(ts) > 1 else ts[0]
+            val = "(" + ", ".join(self.conv_to(a, t) for a, t in zip(args, ts)) + ")"
+        else:
+            rt = self.ct(inner[0]["type"])
+            if not is_int(rt):
+                raise Fail(f"{pos_of(s)}: non-integral return value inside a site")
+            val = self.conv_to(inner[0], rt)
+        if self.site_ret_t not in (None, rt):
+            raise Fail(f"{pos_of(s)}: the returns of the site have different types")
+        self.site_ret_t = rt
+        return self.ret(val)
+
     # ---- statements ---------------------------------------------------------------------------
     def assigned(self, nodes):
         """Lean names of variables (incl. `self`) assigned inside the given statements."""
@@ -889,10 +1179,14 @@ class FnTr:
             return out
         if kind == "ReturnStmt":
             inner = s.get("inner", [])
+            if not inner and self.site:
+                raise Fail(f"{pos_of(s)}: `return;` inside a site")
             if not inner:
                 if not self.void:
                     raise Fail(f"{pos_of(s)}: `return;` in a non-void function")
                 return self.ret("self")
+            if self.site and self.site.get("part") == "then_return":
+                return self.site_return(s)
             if self.slice:
                 raise Fail("return inside a slice")
             return self.ret(self.conv_to(inner[0], self.ret_t))
@@ -924,6 +1218,8 @@ class FnTr:
             if t[0] == "s" and t[1] < 32:
                 raise Fail(f"{pos_of(e)}: ++/-- on a sub-int signed type")
             return self.store(lhs, self.expr(fake), k)
+        if self.site and kind in ("CXXMemberCallExpr", "CXXOperatorCallExpr", "CallExpr") and self.opaque_effect(e):
+            return k
         if kind == "CXXMemberCallExpr":
             return self.call_stmt(e, k)
         raise Fail(f"{pos_of(s)}: statement of kind {s['kind']} is outside the supported subset")
@@ -949,6 +1245,10 @@ class FnTr:
 
     def assign(self, e, k):
         lhs, rhs = e["inner"]
+        if self.site:
+            l = unwrap(lhs)
+            if l["kind"] == "DeclRefExpr" and l["referencedDecl"]["id"] in self.vars and self.vars[l["referencedDecl"]["id"]][0] not in self.free_vars(k):
+                return k          # the value is not used by what the site computes (`evalScore = q0Eval` before a return)
         lt = self.ct(lhs["type"])
         if e["kind"] == "BinaryOperator":
             return self.store(lhs, self.conv_to(rhs, lt), k)
@@ -962,6 +1262,52 @@ class FnTr:
         val = self.expr(fake)
         val = self.convert(self.ct(res_t), lt, val, e)
         return self.store(lhs, val, k)
+
+    def byref_locals(self, args, at):
+        """Integral locals handed to an opaque call as non-const lvalues (the call could write them): refused."""
+        for a in args:
+            u = a
+            while u["kind"] in WRAPPERS or (u["kind"] in CASTS and u.get("castKind") == "NoOp"):
+                u = u["inner"][0]
+            if u["kind"] == "DeclRefExpr" and u.get("referencedDecl", {}).get("id") in self.vars:
+                name, t = self.vars[u["referencedDecl"]["id"]]
+                if is_int(t) and not a["type"]["qualType"].startswith("const "):
+                    raise Fail(f"{at}: local `{name}` is passed to an opaque call as a non-const lvalue")
+
+    def opaque_effect(self, e):
+        """Site mode: an expression statement that is a call on / of something outside the model (`tt.insert(..)`,
+        `emptyMove.setScore(..)`, `sti.bestMove = m`).  It cannot assign an integral local of the function unless that
+        local is passed by non-const reference (checked) or captured by a lambda (calls of local lambdas are refused), so
+        it is irrelevant for the values the site computes.  Calls on `this` itself are not skipped."""
+        k = e["kind"]
+        args = e["inner"][1:]
+        if k == "CXXMemberCallExpr":
+            cal = e["inner"][0]
+            if cal.get("kind") != "MemberExpr" or unwrap(cal["inner"][0])["kind"] == "CXXThisExpr":
+                return False
+        elif k == "CXXOperatorCallExpr":
+            obj = args[0]
+            while obj["kind"] in WRAPPERS or (obj["kind"] in CASTS and obj.get("castKind") == "NoOp"):
+                obj = obj["inner"][0]
+            if "lambda" in obj.get("type", {}).get("qualType", ""):
+                raise Fail(f"{pos_of(e)}: call of a local lambda as a statement inside a site")
+            if obj["kind"] == "DeclRefExpr" and obj.get("referencedDecl", {}).get("id") in self.vars and is_int(self.vars[obj["referencedDecl"]["id"]][1]):
+                return False
+            args = args[1:]
+        self.byref_locals(args, pos_of(e))
+        # opaque local objects this statement may modify: their observers must not be parameters of the same site
+        objs = list(args)
+        if k == "CXXMemberCallExpr" and not e["inner"][0]["inner"][0]["type"]["qualType"].startswith("const "):
+            objs.append(e["inner"][0]["inner"][0])
+        elif k == "CXXOperatorCallExpr":
+            objs.append(e["inner"][1])
+        for a in objs:
+            u = a
+            while u["kind"] in WRAPPERS or (u["kind"] in CASTS and u.get("castKind") == "NoOp"):
+                u = u["inner"][0]
+            if u["kind"] == "DeclRefExpr" and u.get("referencedDecl", {}).get("id") in self.vars and not a["type"]["qualType"].startswith("const "):
+                self.touched.add(self.vars[u["referencedDecl"]["id"]][0])
+        return True
 
     def call_stmt(self, e, k):
         cal = e["inner"][0]
@@ -1188,6 +1534,8 @@ class FnTr:
 
     def expr(self, n):
         k = n["kind"]
+        if k == "SubstNonTypeTemplateParmExpr":
+            return self.expr(n["inner"][-1])      # template argument of the instantiation (children: parameter declaration, replacement)
         if k in WRAPPERS:
             return self.expr(n["inner"][0])
         if k in CASTS:
@@ -1294,20 +1642,55 @@ class FnTr:
             c = self.cond(n["inner"][0])
             t = self.ct(n["type"])
             return f"(if {c} then {self.conv_to(n['inner'][1], t)} else {self.conv_to(n['inner'][2], t)})"
-        if k == "CallExpr":
-            return self.call(n)
-        if k == "CXXMemberCallExpr":
-            d, args = self.member_call(n)
-            if d is None:
-                return args      # abstract observer
-            if d.void:
-                raise Fail(f"{pos_of(n)}: void call used as a value")
-            return f"({d.lname} {' '.join(args)})".replace(" )", ")")
+        if k in ("CallExpr", "CXXMemberCallExpr") and self.site:
+            snap = (dict(self.abstract), set(self.used_names), list(self.oblig), self.uses_self)
+            try:
+                return self.expr_call(n)
+            except Fail as why:
+                self.abstract, self.used_names, self.oblig, self.uses_self = snap
+                return self.opaque_call(n, why)
+        if k in ("CallExpr", "CXXMemberCallExpr"):
+            return self.expr_call(n)
         if k == "CXXOperatorCallExpr":
             return self.op_call(n)
         if k == "ArraySubscriptExpr":
             return self.table_read(n)
         raise Fail(f"{pos_of(n)}: expression of kind {k} is outside the supported subset")
+
+    def expr_call(self, n):
+        if n["kind"] == "CallExpr":
+            return self.call(n)
+        d, args = self.member_call(n)
+        if d is None:
+            return args      # abstract observer
+        if d.void:
+            raise Fail(f"{pos_of(n)}: void call used as a value")
+        return f"({d.lname} {' '.join(args)})".replace(" )", ")")
+
+    def opaque_call(self, n, why):
+        """Site mode: a call the translator cannot model (`MoveGen::isLegal(pos, m, inCheck)`, `getMoveExtend(..)`) becomes
+        an abstract parameter `opq_<callee>` of the call's result type: the Bridge theorems about the site then hold for
+        every value the call may return.  Integral locals passed by non-const reference are refused."""
+        t = self.ct(n["type"])
+        if not is_int(t) or t[0] == "void":
+            raise why
+        cal = n["inner"][0]
+        if n["kind"] == "CXXMemberCallExpr" and cal.get("kind") == "MemberExpr":
+            name = cal.get("name")
+        else:
+            c = unwrap(cal)
+            name = c.get("referencedDecl", {}).get("name") if c.get("kind") == "DeclRefExpr" else None
+        if not name:
+            raise why
+        self.byref_locals(n["inner"][1:], pos_of(n))
+        off = offset_of(n)
+        if off not in self.opaque:
+            base = "opq_" + lean_ident(name)
+            cand, i = base, 2
+            while cand in self.used_names:
+                cand = f"{base}_{i}"; i += 1
+            self.opaque[off] = cand
+        return self.add_abstract(self.opaque[off], lean_ty(t), own=True)
 
     def binop(self, n):
         op = n["opcode"]
@@ -1443,6 +1826,8 @@ class FnTr:
             if not self.param_is_struct(vt):
                 # opaque object: const observers become abstract parameters (assumed pure)
                 bq = base["type"]["qualType"]
+                if self.site and cal["inner"][0]["type"]["qualType"].startswith("const "):
+                    bq = "const " + bq      # a const member function called on a non-const local: clang casts the object to const
                 if not bq.startswith("const "):
                     raise Fail(f"{pos_of(n)}: call of `{name}` on a non-const opaque object `{vname}`")
                 rt = self.ct(n["type"])
